@@ -77,3 +77,56 @@ pub fn small_int_values<T: Flt>(k: u32) -> Vec<u64> {
 pub fn bin_values(f: Fmt, level: u32) -> Vec<u64> {
     gen::bin_values(f, level)
 }
+
+/// ENDPT: floats one of whose rounding-interval endpoints (2m +- 1) * 2^(e-1) is a decimal with
+/// no more significant digits than the longest shortest output: 2m +- 1 = j * 5^k (j odd) and
+/// e - 1 = k + t, so the endpoint equals j * 2^t * 10^k (t >= 0) or j * 5^-t * 10^(k+t) (t < 0).
+/// These are the values on which the shortest-digit search must decide whether an endpoint
+/// belongs to the interval (closed for even m, open for odd m).
+pub fn endpoint_values(f: Fmt, kmin: u32) -> Vec<u64> {
+    let p = f.mant_bits + 1; // mantissa bits incl. hidden bit
+    let lo: u128 = 1u128 << p; // 2m+-1 lies in (2^p, 2^(p+1))
+    let hi: u128 = 1u128 << (p + 1);
+    let dmax: u128 = if f.mant_bits == 52 { 100_000_000_000_000_000 } else { 1_000_000_000 };
+    let mut out = Vec::new();
+    let mut k = 0u32;
+    let mut p5: u128 = 1;
+    while p5 < hi {
+        if k >= kmin {
+            let mut j = (lo / p5) | 1;
+            if j * p5 < lo {
+                j += 2;
+            }
+            while j * p5 < hi {
+                let odd = j * p5; // = 2m - 1 or 2m + 1
+                for m in [(odd + 1) / 2, (odd - 1) / 2] {
+                    let m = m as u64;
+                    if m >> f.mant_bits != 1 {
+                        continue;
+                    }
+                    for t in -(k as i64)..=64 {
+                        let digits = if t >= 0 { j << t } else { j * 5u128.pow((-t) as u32) };
+                        if digits >= dmax {
+                            if t >= 0 {
+                                break;
+                            }
+                            continue;
+                        }
+                        // value = m * 2^e with e - 1 = k + t
+                        let e = k as i64 + t + 1;
+                        let ef = e - f.emin() + 1; // biased exponent field for normals
+                        if ef >= 1 && (ef as u64) < f.exp_max_field() {
+                            out.push(((ef as u64) << f.mant_bits) | (m & f.mant_mask()));
+                        }
+                    }
+                }
+                j += 2;
+            }
+        }
+        k += 1;
+        p5 *= 5;
+    }
+    out.sort_unstable();
+    out.dedup();
+    out
+}
